@@ -149,6 +149,7 @@ def check(P, R):
     # a field must not take over bytes of the following part: the delimiter found resets the carried remainder
     from . import c06
     c06.check_eat_data_resets(P, _Sub(R, {}), 'C12.c')
+    c06.check_sentinels(P, _Sub(R, {}), 'C12.c')
 
     # ---- d: progress
     pq = P.func('ombott.request_pkg.helpers:parse_qsl')
